@@ -85,7 +85,15 @@ def rebin(x, d, sample=False):
             f = d0[k]/d[k]
             for i in range(d[k]):
                 p = f*i
-                fp = int(floor(p))
+                if sample:
+                    #
+                    # Nearest-neighbor index in integer arithmetic: the
+                    # floating-point product f*i can fall just below an
+                    # integer, e.g. 49*(2/98) < 1.
+                    #
+                    fp = (i*d0[k])//d[k]
+                else:
+                    fp = int(floor(p))
                 sliceobj0[k] = slice(fp, fp + 1)
                 sliceobj[k] = slice(i, i + 1)
                 if sample:
